@@ -1350,6 +1350,24 @@ func UrlencodedBodyDecoder(body io.Reader, header http.Header, schema *openapi3.
 		return nil, err
 	}
 
+	// decodeSchemaConstructs skips properties it cannot parse (needed for anyOf/oneOf
+	// alternatives); a field that was sent for a property of the body schema itself
+	// and could not be parsed is an error, not an absent property.
+	for name, prop := range schema.Value.Properties {
+		if _, sent := values[name]; !sent {
+			continue
+		}
+		if _, decoded := obj[name]; decoded {
+			continue
+		}
+		if _, _, err := decodeProperty(dec, name, prop, encFn); err != nil {
+			if v, ok := err.(*ParseError); ok {
+				return nil, &ParseError{path: []any{name}, Cause: v}
+			}
+			return nil, fmt.Errorf("property %q: %w", name, err)
+		}
+	}
+
 	return obj, nil
 }
 
